@@ -41,6 +41,7 @@ ExprNorm(e) == IF Len(e) < 3 THEN e
                ELSE LET a == ExprNorm(e[2]) b == ExprNorm(e[3])
                     IN IF e[1] \in {"+", "*"} /\ Rank(b) < Rank(a) THEN <<e[1], b, a>> ELSE <<e[1], a, b>>
 
+\* (an entry's `al` field -- written as a YAML alias of entry al of the same node -- is not part of the meaning)
 EntryMeaning(en) == [k |-> en.k, v |-> en.v, sub |-> {[k |-> s.k, v |-> s.v] : s \in {en.sub[i] : i \in 1..Len(en.sub)}}]
 SweepMeaning(sw) == IF ~sw.on THEN sw ELSE [sw EXCEPT !.expr = ExprNorm(sw.expr), !.vorder = FALSE]
 NodeMeaning(n) == [proc |-> n.proc,
@@ -52,7 +53,8 @@ Meaning(c) == [i \in 1..Len(c) |-> NodeMeaning(c[i])]
 SwapAt(s, i) == [j \in 1..Len(s) |-> IF j = i THEN s[i + 1] ELSE IF j = i + 1 THEN s[i] ELSE s[j]]
 \* a node written as a YAML alias (*nK) of an earlier, equal node K: alias = K (0 = written out).  Nodes taking
 \* part in an alias pair are not rewritten further (the alias would silently follow its anchor).
-Involved(i) == cfg[i].alias # 0 \/ \E j \in 1..Len(cfg) : cfg[j].alias = i
+Involved(i) == cfg[i].alias # 0 \/ (\E j \in 1..Len(cfg) : cfg[j].alias = i)
+                  \/ (\E e \in 1..Len(cfg[i].ps) : cfg[i].ps[e].al # 0)     \* ... or holding an aliased parameter value
 NoAliases == \A j \in 1..Len(cfg) : cfg[j].alias = 0
 SetNode(i, n) == ~Involved(i) /\ cfg' = [cfg EXCEPT ![i] = n]
 
@@ -69,12 +71,23 @@ CommuteExpr == \E i \in 1..Len(cfg) :
                   /\ cfg[i].sweep.on /\ Len(cfg[i].sweep.expr) = 3 /\ cfg[i].sweep.expr[1] \in {"+", "*"}
                   /\ cfg[i].sweep.expr[2] # cfg[i].sweep.expr[3]
                   /\ SetNode(i, [cfg[i] EXCEPT !.sweep.expr = <<@[1], @[3], @[2]>>]) /\ last' = "CommuteExpr"
+\* the same one level down, under ANY root operator (also a non-commutative one)
+CommuteInner == \E i \in 1..Len(cfg) :
+                  /\ cfg[i].sweep.on /\ Len(cfg[i].sweep.expr) = 3 /\ Len(cfg[i].sweep.expr[2]) = 3
+                  /\ cfg[i].sweep.expr[2][1] \in {"+", "*"} /\ cfg[i].sweep.expr[2][2] # cfg[i].sweep.expr[2][3]
+                  /\ SetNode(i, [cfg[i] EXCEPT !.sweep.expr[2] = <<@[1], @[3], @[2]>>]) /\ last' = "CommuteInner"
 PermuteVars == \E i \in 1..Len(cfg) : cfg[i].sweep.on /\ cfg[i].sweep.ctx2
                   /\ SetNode(i, [cfg[i] EXCEPT !.sweep.vorder = ~@]) /\ last' = "PermuteVars"
 Alias == \E i, j \in 1..Len(cfg) : /\ i < j /\ ~Involved(i) /\ ~Involved(j)
                                     /\ NodeMeaning(cfg[i]) = NodeMeaning(cfg[j])
                                     /\ cfg' = [cfg EXCEPT ![j].alias = i] /\ last' = "Alias"
-Cosmetic == PermuteKeys \/ PermuteSubKeys \/ Respell \/ Requote \/ Reflow \/ CommuteExpr \/ PermuteVars \/ Alias
+\* a nested mapping value written as an alias (*nIeA) of an equal mapping value of the SAME node's parameters
+SubSet(en) == {[k |-> x.k, v |-> x.v] : x \in {en.sub[m] : m \in 1..Len(en.sub)}}
+AliasSub == \E i \in 1..Len(cfg) : \E a, b \in 1..Len(cfg[i].ps) :
+               /\ a < b /\ ~Involved(i) /\ cfg[i].ps[a].sub # <<>> /\ cfg[i].ps[b].sub # <<>>
+               /\ SubSet(cfg[i].ps[a]) = SubSet(cfg[i].ps[b])
+               /\ cfg' = [cfg EXCEPT ![i].ps[b].al = a] /\ last' = "AliasSub"
+Cosmetic == PermuteKeys \/ PermuteSubKeys \/ Respell \/ Requote \/ Reflow \/ CommuteExpr \/ CommuteInner \/ PermuteVars \/ Alias \/ AliasSub
 
 (******************************* semantic actions *************************)
 OtherProc(p) == IF p = "FloatMultiplyOperation" THEN "VNestedOperation" ELSE "FloatMultiplyOperation"
@@ -95,6 +108,8 @@ SwapNodes == \E i \in 1..(Len(cfg) - 1) : NoAliases /\ NodeMeaning(cfg[i]) # Nod
 SweepField(f) == \E i \in 1..Len(cfg) : cfg[i].sweep.on /\
     CASE f = "vals"  -> SetNode(i, [cfg[i] EXCEPT !.sweep.vals = Append(@, 9)])
       [] f = "val1"  -> SetNode(i, [cfg[i] EXCEPT !.sweep.vals[1] = @ + 1])
+      [] f = "valmid" -> /\ Len(cfg[i].sweep.vals) >= 7      \* an interior value of a long sequence (beyond any head/tail sample)
+                         /\ SetNode(i, [cfg[i] EXCEPT !.sweep.vals[(Len(cfg[i].sweep.vals) + 1) \div 2] = @ + 1])
       [] f = "mode"  -> SetNode(i, [cfg[i] EXCEPT !.sweep.mode = IF @ = "combinatorial" THEN "by_position" ELSE "combinatorial"])
       [] f = "bc"    -> SetNode(i, [cfg[i] EXCEPT !.sweep.bc = ~@])
       [] f = "const" -> SetNode(i, [cfg[i] EXCEPT !.sweep.expr = <<"+", @, <<"c", 1>>>>])
@@ -110,8 +125,8 @@ SweepField(f) == \E i \in 1..Len(cfg) : cfg[i].sweep.on /\
                         IN SetNode(i, [cfg[i] EXCEPT !.sweep.el = e2, !.proc = e2])     \* the wrapped processor
 SweepName(f) == CASE f = "vals" -> "SetSweep_vals" [] f = "val1" -> "SetSweep_val1" [] f = "mode" -> "SetSweep_mode"
                    [] f = "bc" -> "SetSweep_bc" [] f = "const" -> "SetSweep_const" [] f = "noncomm" -> "SetSweep_noncomm"
-                   [] f = "el" -> "SetSweep_el" [] f = "oproot" -> "SetSweep_oproot" [] f = "inttype" -> "SetSweep_inttype" [] f = "opinner" -> "SetSweep_opinner" [] f = "vname" -> "SetSweep_vname"
-SetSweep == \E f \in {"vals", "val1", "mode", "bc", "const", "noncomm", "el", "oproot", "opinner", "inttype", "vname"} : SweepField(f) /\ last' = SweepName(f)
+                   [] f = "el" -> "SetSweep_el" [] f = "oproot" -> "SetSweep_oproot" [] f = "inttype" -> "SetSweep_inttype" [] f = "opinner" -> "SetSweep_opinner" [] f = "vname" -> "SetSweep_vname" [] f = "valmid" -> "SetSweep_valmid"
+SetSweep == \E f \in {"vals", "val1", "mode", "bc", "const", "noncomm", "el", "oproot", "opinner", "inttype", "vname", "valmid"} : SweepField(f) /\ last' = SweepName(f)
 Semantic == SetProcessor \/ SetParam \/ SetSubParam \/ DropNode \/ DupNode \/ SwapNodes \/ SetSweep
 
 Init == cfg \in Seeds /\ last = "" /\ steps = 0 /\ base = cfg
@@ -119,7 +134,7 @@ Next == /\ steps < MaxSteps /\ steps' = steps + 1 /\ base' = cfg
         /\ (Cosmetic \/ Semantic)
 Spec == Init /\ [][Next]_vars
 
-CosmeticNames == {"PermuteKeys", "PermuteSubKeys", "Respell", "Requote", "Reflow", "CommuteExpr", "PermuteVars", "Alias"}
+CosmeticNames == {"PermuteKeys", "PermuteSubKeys", "Respell", "Requote", "Reflow", "CommuteExpr", "CommuteInner", "PermuteVars", "Alias", "AliasSub"}
 CosmeticKeepsMeaning == (last \in CosmeticNames) => Meaning(cfg) = Meaning(base)
 SemanticChangesMeaning == (last # "" /\ last \notin CosmeticNames) => Meaning(cfg) # Meaning(base)
 
